@@ -33,3 +33,13 @@ chk("C07", "exploration",
     "Plain -O2 build; duplicate sibling names and the fate of a removed crate's descendants follow what is observed (statement silent); a call on a removed handle ends the case (out of contract).",
     "runtime monitoring of crate histories: self-consistency checker over observed query results plus reference forest model, bounded-exhaustive and random workloads",
     "DESIGN.md section 4, C07")
+chk("C08", "exploration",
+    "Histories on all 18 versions first de-synchronise track, crate and membership id spaces, then interleave add_track, crate.remove_track, clear_tracks, database.remove_track, remove_crate, creation and re-creation of tracks and crates (id recycling), re-adds and removes of absent tracks; after every step crate.tracks() of every live crate and, on 1.x, track.containing_crates() of every live track are compared with a reference relation of (crate, track) pairs: exact set, no duplicates, no removed tracks, converse relation, no effect on other pairs, throwing ops change nothing.",
+    "Plain -O2 build; order not judged (C09); containing_crates() judged on 1.x only (2.x: not implemented); a call on a removed handle ends the case.",
+    "runtime monitoring of membership histories against a reference relation, observed through the public API after every step",
+    "DESIGN.md section 4, C08")
+chk("C09", "exploration",
+    "On the seven 2.x versions, histories of positional and non-positional crate creation, re-parenting, renaming, removal and track add/remove/clear are run; after every step root_crates(), children() of every crate, tracks() of every crate and the table-API listings root_ids(), child_ids(), get_for_list() are compared with ordered reference lists: every sibling/entry exactly once, create-after lands immediately after its anchor, untouched items keep their relative order, entries in insertion order, table listings equal the high-level ones.",
+    "Plain -O2 build; placement of an item created without position or moved to a new parent is adopted from the observation (unspecified); no order across parents.",
+    "runtime monitoring of ordered listings against ordered reference lists over generated 2.x histories",
+    "DESIGN.md section 4, C09")
